@@ -38,17 +38,18 @@ type NetConfig struct {
 }
 
 type Config struct {
-	Seed        uint64
-	Nodes       int
-	ExtraKeys   int           // identities beyond genesis (pledging candidates)
-	StartOffset time.Duration // simulated start relative to the genesis epoch
-	OpPeriod    time.Duration // kernel operation period (mint/election ticks)
-	Net         NetConfig
-	LogStore    bool
-	NoLoops     bool // do not schedule the periodic node loops (rigs that only call node APIs)
-	KeepTrace   bool
-	Root        string // directory for Badger data (tmpfs)
-	EpochShift  int64  // seconds subtracted from the genesis epoch (long horizons)
+	Seed         uint64
+	Nodes        int
+	ExtraKeys    int           // identities beyond genesis (pledging candidates)
+	StartOffset  time.Duration // simulated start relative to the genesis epoch
+	OpPeriod     time.Duration // kernel operation period (mint/election ticks)
+	Net          NetConfig
+	LogStore     bool
+	NoLoops      bool    // do not schedule the periodic node loops (rigs that only call node APIs)
+	StartCutRate float64 // chance that a restart scheduled after a stop is itself stopped during start-up (0 = never)
+	KeepTrace    bool
+	Root         string // directory for Badger data (tmpfs)
+	EpochShift   int64  // seconds subtracted from the genesis epoch (long horizons)
 }
 
 // Monitor is an invariant observer. All callbacks run synchronously inside
@@ -110,6 +111,7 @@ type SNode struct {
 	crashBefore       bool
 	CommitOrdinal     int // Badger commits attempted by this node (instrumented storage build)
 	crashCommit       int
+	StartCrashAt      int // >0: the next start of this node stops right before its k-th Badger commit (a stop during start-up)
 	failWriteSnapshot int
 	wakeQueued        bool
 	Restarts          int
@@ -368,7 +370,10 @@ func (c *Cluster) Violate(prop, sig, detail string, n *SNode) {
 }
 
 // StartNode opens the durable store and runs the real SetupNode.
-func (c *Cluster) StartNode(n *SNode) error {
+// ErrStoppedDuringStart reports that an armed stop (StartCrashAt) fired while the node was starting.
+var ErrStoppedDuringStart = fmt.Errorf("node stopped during start-up")
+
+func (c *Cluster) StartNode(n *SNode) (err error) {
 	if err := os.MkdirAll(n.Dir, 0755); err != nil {
 		return err
 	}
@@ -389,6 +394,26 @@ func (c *Cluster) StartNode(n *SNode) error {
 		return err
 	}
 	n.Store, n.Cache = store, cache
+	if k := n.StartCrashAt; k > 0 {
+		// a stop during start-up: genesis load, state repair and round completion all write
+		n.StartCrashAt = 0
+		n.crashCommit = n.CommitOrdinal + k
+		defer func() {
+			n.crashCommit = 0
+			if r := recover(); r != nil {
+				if _, ok := r.(crashSignal); !ok {
+					panic(r)
+				}
+				c.Trace.Logf(c.Q.Now, "stopped during start n%d commit+%d", n.Idx, k)
+				store.Close()
+				cache.Close()
+				n.Node, n.Store, n.W, n.Cache = nil, nil, nil, nil
+				n.Alive = false
+				c.count("crash.during_start")
+				err = ErrStoppedDuringStart
+			}
+		}()
+	}
 	n.W = &WStore{BadgerStore: store, c: c, n: n}
 	node, err := kernel.SetupNode(n.Custom, n.W, cache, c.Gns)
 	if err != nil {
@@ -463,6 +488,10 @@ func (c *Cluster) Restart(n *SNode) error {
 		err = c.StartNode(n)
 	}()
 	c.Trace.Logf(c.Q.Now, "restart n%d err=%v", n.Idx, err != nil)
+	if err == ErrStoppedDuringStart {
+		c.scheduleRestart(n)
+		return nil
+	}
 	if err != nil {
 		return err
 	}
@@ -598,6 +627,9 @@ func (c *Cluster) scheduleRestart(n *SNode) {
 	c.Q.After(d, "restart", func() {
 		if n.Alive || c.Halt {
 			return
+		}
+		if c.Cfg.StartCutRate > 0 && c.Rng.Chance(c.Cfg.StartCutRate) {
+			n.StartCrashAt = 1 + c.Rng.IntN(5) // the restart after a stop is itself cut once
 		}
 		if err := c.Restart(n); err != nil {
 			c.Violate("C22", "restart-failed", err.Error(), n)
@@ -998,7 +1030,16 @@ func (c *Cluster) Run(until time.Duration) {
 func (c *Cluster) Boot() error {
 	c.Install()
 	for i := 0; i < c.Cfg.Nodes; i++ {
-		if err := c.StartNode(c.Nodes[i]); err != nil {
+		err := c.StartNode(c.Nodes[i])
+		if err == ErrStoppedDuringStart {
+			// the very first start was cut: the operator starts the node again
+			err = c.Restart(c.Nodes[i])
+			if err != nil {
+				c.Violate("C22", "restart-failed", err.Error(), c.Nodes[i])
+				err = nil
+			}
+		}
+		if err != nil {
 			return err
 		}
 	}
